@@ -3,7 +3,7 @@ F = "/repo/aw_transform/union_no_overlap.py"
 M = "aw_transform.union_no_overlap."
 PROP = dict(
     id="C15",
-    level="other",
+    level="proof",
     contract_modules=["contracts.models", "contracts.union_no_overlap"],
     spec_modules=["contracts.union_no_overlap"],
     functions=[dict(fn=M + "_split_event", scope={"grid": 6, "durs": [0, 1, 2, 3]}),
@@ -13,19 +13,21 @@ PROP = dict(
            "data": [{"a": 1}, {"a": 2}]},
     crosscheck_budget=400,
     timeout_s=20,
-    technique="contract-based deductive verification (VCs from the AST, z3/cvc5) for order, soundness of pieces, "
-              "non-overlap, frame and termination; run-time contract on the real function (bounded) for exact coverage",
+    level_note="proof for the stated input domain (two time-sorted, internally non-overlapping lists with non-negative whole-millisecond durations); trusted base in the evidence file (A-COPY for deepcopy, Timeslot.intersects from the installed timeslot source). The run-time contract is an additional cross-check of the encoder, not part of the claim.",
     explanation="Proved for all inputs (loop invariant with ghost provenance maps; _split_event inlined in the loop proof and "
                 "verified against its own contract separately): every list-one event is returned unchanged and in order; every "
                 "other returned event is a piece of a list-two event (inside it, same data) that shares no positive time with any "
                 "list-one event; the result is ordered in time, hence no two returned events overlap; inputs are not modified; the "
-                "loop terminates.  NOT proved, bounded only: that *every* uncovered part of list two is returned (completeness of "
-                "clause 2) - this is the run-time contract (pointwise equality of covered time at all interval mid-points, "
-                "labels included) evaluated on the real function over random small sorted non-overlapping lists.",
+                "loop terminates.  Completeness - every uncovered part of list two is returned - is proved as the absence of "
+                "list-two time in the gaps of the output: the output is ordered in time and contains every list-one event, so a gap "
+                "between two consecutive output events holds no list-one time; the invariants GAPS_OK / settled state that it holds "
+                "no list-two time either (nor does any lie before the first or after the last output event), i.e. the covered time "
+                "is the union of both inputs.  The run-time contract (pointwise equality of covered time at all interval mid-points, "
+                "labels included) is evaluated on the real function over random small inputs as a cross-check.",
 )
 MUTANTS = [
-    (F, "                if e1_end <= e2.timestamp:", "                if e1_end < e2.timestamp:", False),   # loses a piece: completeness only, caught by the run-time contract (bounded), not by the proof
-    (F, "                    _, e2_next = _split_event(e2, e1_end)", "                    _, e2_next = _split_event(e2, e1.timestamp)", False),  # idem
+    (F, "                if e1_end <= e2.timestamp:", "                if e1_end < e2.timestamp:", True),   # loses a piece of list two (completeness): the gap invariants fail
+    (F, "                    _, e2_next = _split_event(e2, e1_end)", "                    _, e2_next = _split_event(e2, e1.timestamp)", True),  # idem
     (F, "                e2_next, e2_next2 = _split_event(e2, e1.timestamp)\n                events_union.append(e2_next)", "                e2_next, e2_next2 = _split_event(e2, e1.timestamp)\n                events_union.append(e2)", True),
     (F, "    events1 = deepcopy(events1)\n", "    events1 = list(events1)\n", False),   # list one is only read: returning the caller's own event objects modifies nothing
     (F, "        e2.timestamp = dt\n", "        e2.timestamp = e.timestamp\n", True),
